@@ -407,6 +407,8 @@ func strClass(x string) string {
 		return "leading-newline"
 	case strings.TrimLeft(x, " \t") != x && strings.ContainsAny(x, "\n\r"):
 		return "leading-blank-multiline"
+	case strings.HasPrefix(x, "\u0085") || strings.HasPrefix(x, "\u2028") || strings.HasPrefix(x, "\u2029"):
+		return "unicode-line-break" // the leading separator is what is lost, whatever follows
 	case strings.Contains(x, "\r"):
 		return "carriage-return"
 	case strings.ContainsAny(x, "\u0085\u2028\u2029"):
@@ -570,9 +572,26 @@ func check(c Case) (o pbt.Outcome) {
 			}
 		}
 	}
+	// a difference is only reported when both sides reproduce their own result five more times: two runs do not
+	// rule out a command whose output depends on map iteration order (expansion of mutually recursive definitions)
+	stable := func(keys ...string) bool {
+		for _, k := range keys {
+			io := strings.SplitN(k, ">", 2)
+			for i := 0; i < 5; i++ {
+				if again := runCmd(c, io[0], io[1]); again.err != "" || firstDiff(res[k].tree, again.tree, "$") != "" {
+					o.Class("skipped:command-not-deterministic")
+					return false
+				}
+			}
+		}
+		return true
+	}
 	// (a) same input, yaml output vs json output
 	for _, in := range ins {
 		if d := firstDiff(res[in+">json"].tree, res[in+">yaml"].tree, "$"); d != "" {
+			if !stable(in+">json", in+">yaml") {
+				return
+			}
 			// second opinion on the YAML text itself
 			so, err := yamlSecondOpinion(res[in+">yaml"].raw)
 			agree := err == nil && firstDiff(res[in+">json"].tree, toNumberTree(so), "$") != ""
@@ -587,6 +606,9 @@ func check(c Case) (o pbt.Outcome) {
 	if len(ins) == 2 {
 		for _, out := range []string{"json", "yaml"} {
 			if d := firstDiff(res["json>"+out].tree, res["yaml>"+out].tree, "$"); d != "" {
+				if !stable("json>"+out, "yaml>"+out) {
+					return
+				}
 				o.Fail(fmt.Sprintf("C19|input-format-matters|%s|%s", family(c.Cmd), kindOfDiff(d)), "%s -> %s: result differs between the JSON and the YAML rendering of the same input at %s", c.Cmd, out, d)
 			}
 		}
